@@ -563,6 +563,11 @@ func (ar *archiveReader) close() error {
 
 // readByteSpan reads the byte span from the archive. This allocates a new byte slice and returns it to the caller.
 func (ar *archiveReader) readByteSpan(ctx context.Context, bs byteSpan, stats *Stats) ([]byte, error) {
+	// Spans come from the archive index, which is not validated when it is loaded. A span can never reach past the
+	// end of the file, so reject one that does instead of attempting an enormous allocation.
+	if bs.length > ar.footer.fileSize || bs.offset > ar.footer.fileSize-bs.length {
+		return nil, fmt.Errorf("invalid byte span in archive %s: offset %d, length %d, file size %d", ar.footer.hash.String(), bs.offset, bs.length, ar.footer.fileSize)
+	}
 	buff := make([]byte, bs.length)
 	_, err := ar.reader.ReadAtWithStats(ctx, buff[:], int64(bs.offset), stats)
 	if err != nil {
